@@ -152,6 +152,18 @@ CHECKS["C07"] = (
     "DESIGN.md section 3 / C07",
 )
 
+CHECKS["C08"] = (
+    "Hypothesis (pattern, node) pairs - grammar-generated and node-abstracted patterns - vs a reference pattern interpreter; cached / recompiled / interleaved differential; MultiPatternMatcher order oracle",
+    "Seeded Hypothesis search over patterns from the grammar and patterns abstracted from a real node and then "
+    "perturbed (sequence length, tail, regex position, class alternatives, variables), matched against several "
+    "nodes; verdicts and capture dictionaries (object identity) are compared with an independent interpreter of "
+    "the documented semantics, cached vs freshly compiled vs interleaved compilations must agree (caches are "
+    "deliberately never cleared between cases), and MultiPatternMatcher must return the first matching rule of "
+    "the given order. Bounded exploration.",
+    "Trusts Hypothesis, pbt/pattern_ref.py and Python's re; sequence patterns against str values are not generated.",
+    "DESIGN.md section 3 / C08",
+)
+
 NOT_YET = "check not built yet in this snapshot (see DESIGN.md section 9 build order); nothing is claimed"
 
 
